@@ -43,7 +43,11 @@ fn gen_template(rng: &mut Rng) -> (String, Vec<String>) {
             }
             3 => { tpl.push_str("{{"); lines.last_mut().unwrap().push('{'); }
             4 => { tpl.push_str("}}"); lines.last_mut().unwrap().push('}'); }
-            5 => { let ws = *rng.pick(&[' ', '\t']); tpl.push('{'); tpl.push(ws); lines.last_mut().unwrap().push('{'); lines.last_mut().unwrap().push_str(if ws == '\t' { "        " } else { " " }); }
+            // an opening brace followed by whitespace is literal text (also when the whitespace is a line break, and
+            // also after the first characters of what looked like a key)
+            5 => { let ws = *rng.pick(&[' ', '\t', '\n', '\n']); let pre = *rng.pick(&["", "", "ab"]);
+                   tpl.push('{'); tpl.push_str(pre); tpl.push(ws); lines.last_mut().unwrap().push('{'); lines.last_mut().unwrap().push_str(pre);
+                   match ws { '\n' => lines.push(String::new()), '\t' => lines.last_mut().unwrap().push_str("        "), _ => lines.last_mut().unwrap().push(' ') } }
             6 => { tpl.push('\n'); lines.push(String::new()); }
             _ => { // placeholder
                 let (key, val) = *rng.pick(&[("msg", "MSG"), ("prefix", "PR"), ("pos", "3"), ("len", "10"), ("foo", "FOO"), ("nosuchkey", "")]);
